@@ -14,6 +14,9 @@
 #include "redir_ipc_mem.h"
 #include <pshmbuffer.c>
 
+#ifndef EINTR_MAX
+#define EINTR_MAX 2
+#endif
 #ifndef OPS
 #define OPS 0, 1
 #endif
@@ -29,7 +32,7 @@ void vk_other(void) {}
 
 #define SEM_SLOT 4          /* key stub: lock semaphore of PShm "a" */
 static PShmBuffer *b[2];
-static int cur_k = -1, nest_done, in_nested;
+static int cur_k = -1, nest_done, in_nested, other_holds;
 
 /* every memcpy/memset range of pshmbuffer.c.  Ranges in kernel shm memory must stay inside the segment, and - "concurrent
  * reads and writes are atomic with respect to each other" through DIFFERENT handles - may only happen while THE lock
@@ -41,6 +44,7 @@ void vm_mem_access(const void *p, size_t n, int is_write) {
   for (int o = 0; o < VK_NSHM; o++)
     if (__CPROVER_same_object(p, vk_shm_mem(o))) {
       VASSERT(__CPROVER_POINTER_OFFSET(p) + n <= (unsigned long) vk_shm_size(o), "no operation touches memory outside the segment");
+      VASSERT(!(other_holds && cur_k >= 0), "an operation touches the segment while the OTHER handle holds the lock of the name");
       int so = vk_sem_linked(SEM_SLOT);
       VASSERT(so >= 0 && vk_sem_value(so) == 0, "the segment is accessed only while the lock semaphore of the name is taken (one lock for all handles)");
 #ifdef NEST
@@ -151,6 +155,20 @@ void harness(void) {
    * 4 used space) and the handle of the first one (-DSTART) are concrete, handles alternate; sizes, lengths
    * and data stay symbolic */
   static const int ops[] = { OPS };
+#ifdef LOCKED_BY_OTHER
+  /* the other handle's process is inside ITS critical section (holds the segment lock); the operation through this handle
+   * receives up to EINTR_MAX handled signals while it waits for the lock (sem_wait fails with EINTR): it must keep waiting -
+   * the path ends in the model - and never touch the segment or return success */
+  vk_cur = 1 - START;
+  vk_expect_noblock = 1;
+  VASSERT(p_shm_lock(b[1 - START]->shm, NULL) == TRUE, "other handle takes the free lock");
+  vk_expect_noblock = 0;
+  other_holds = 1;
+  vk_eintr_budget = ND_RANGE(0, EINTR_MAX);
+  VWITNESS("other handle holds the lock, this handle starts an operation under signals");
+  do_op(START, ops[0]);
+  VASSERT(0, "an operation completed although the other handle holds the lock of the name");
+#else
   for (int i = 0; i < (int) (sizeof ops / sizeof ops[0]); i++) do_op((START + i) & 1, ops[i]);
   cur_k = -1;
   VASSERT(vk_sem_value(vk_sem_linked(SEM_SLOT)) == 1, "lock released after every operation");
@@ -165,4 +183,5 @@ void harness(void) {
   if (S2 > 0 && S2 < S1) VWITNESS("second handle opened with a smaller size argument");
 #endif
 #endif
+#endif /* LOCKED_BY_OTHER */
 }
